@@ -14,33 +14,40 @@ theorem innerIdx_eq : innerIdx = (List.range 8).map (fun k => 0 + 4 * k) := by d
 def specPass (m : Nat) (KS : List Nat) (lr : Nat × Nat) : Nat × Nat :=
   ((Spec.rounds m KS lr).2, (Spec.rounds m KS lr).1)
 
+theorem passes_succ (s : List Nat) (E0 E1 n : Nat) (lr : Nat × Nat) :
+    passes s E0 E1 (n + 1) lr = passes s E0 E1 n (desPass s E0 E1 lr) := rfl
+theorem passes_zero (s : List Nat) (E0 E1 : Nat) (lr : Nat × Nat) : passes s E0 E1 0 lr = lr := rfl
+theorem iter_succ {α} (g : α → α) (n : Nat) (x : α) : Spec.iter g (n + 1) x = Spec.iter g n (g x) := rfl
+theorem iter_zero {α} (g : α → α) (x : α) : Spec.iter g 0 x = x := rfl
+
 theorem desPass_spec (hσ : σ < 2 ^ 12) (KS : List Nat) (hl : KS.length = 16) (hK : ∀ K ∈ KS, K < 2 ^ 48)
-    (L R : Nat) (hL : L < 2 ^ 32) (hR : R < 2 ^ 32) :
-    desPass (ksWords KS) (E0 σ) (E1 σ) (rho L, rho R) =
-      (rho (specPass (sm σ) KS (L, R)).1, rho (specPass (sm σ) KS (L, R)).2) := by
+    (lr : Nat × Nat) (hL : lr.1 < 2 ^ 32) (hR : lr.2 < 2 ^ 32) :
+    desPass (ksWords KS) (E0 σ) (E1 σ) (rho lr.1, rho lr.2) =
+      (rho (specPass (sm σ) KS lr).1, rho (specPass (sm σ) KS lr).2) := by
+  obtain ⟨L, R⟩ := lr
   unfold desPass
   rw [innerIdx_eq, inner_spec σ hσ (ksWords KS) 8 KS 0 L R (by omega) hK hL hR
     (fun t ht => by simpa using ksWords_getD KS t ht)]
   simp only [specPass]
 
-theorem specPass_lt (m : Nat) (KS : List Nat) (L R : Nat) (hL : L < 2 ^ 32) (hR : R < 2 ^ 32) :
-    (specPass m KS (L, R)).1 < 2 ^ 32 ∧ (specPass m KS (L, R)).2 < 2 ^ 32 :=
-  ⟨(rounds_lt m KS L R hL hR).2, (rounds_lt m KS L R hL hR).1⟩
+theorem specPass_lt (m : Nat) (KS : List Nat) (lr : Nat × Nat) (hL : lr.1 < 2 ^ 32) (hR : lr.2 < 2 ^ 32) :
+    (specPass m KS lr).1 < 2 ^ 32 ∧ (specPass m KS lr).2 < 2 ^ 32 := by
+  obtain ⟨L, R⟩ := lr
+  exact ⟨(rounds_lt m KS L R hL hR).2, (rounds_lt m KS L R hL hR).1⟩
 
 theorem passes_spec (hσ : σ < 2 ^ 12) (KS : List Nat) (hl : KS.length = 16) (hK : ∀ K ∈ KS, K < 2 ^ 48) :
-    ∀ (n L R : Nat), L < 2 ^ 32 → R < 2 ^ 32 →
-      passes (ksWords KS) (E0 σ) (E1 σ) n (rho L, rho R) =
-        (rho (Spec.iter (specPass (sm σ) KS) n (L, R)).1, rho (Spec.iter (specPass (sm σ) KS) n (L, R)).2) ∧
-      (Spec.iter (specPass (sm σ) KS) n (L, R)).1 < 2 ^ 32 ∧ (Spec.iter (specPass (sm σ) KS) n (L, R)).2 < 2 ^ 32 := by
+    ∀ (n : Nat) (lr : Nat × Nat), lr.1 < 2 ^ 32 → lr.2 < 2 ^ 32 →
+      passes (ksWords KS) (E0 σ) (E1 σ) n (rho lr.1, rho lr.2) =
+        (rho (Spec.iter (specPass (sm σ) KS) n lr).1, rho (Spec.iter (specPass (sm σ) KS) n lr).2) ∧
+      (Spec.iter (specPass (sm σ) KS) n lr).1 < 2 ^ 32 ∧ (Spec.iter (specPass (sm σ) KS) n lr).2 < 2 ^ 32 := by
   intro n
   induction n with
-  | zero => intro L R hL hR; exact ⟨rfl, hL, hR⟩
+  | zero => intro lr hL hR; rw [passes_zero, iter_zero]; exact ⟨rfl, hL, hR⟩
   | succ n ih =>
-    intro L R hL hR
-    have hb := specPass_lt (sm σ) KS L R hL hR
-    simp only [passes, Spec.iter]
-    rw [desPass_spec σ hσ KS hl hK L R hL hR]
-    exact ih _ _ hb.1 hb.2
+    intro lr hL hR
+    have hb := specPass_lt (sm σ) KS lr hL hR
+    rw [passes_succ, iter_succ, desPass_spec σ hσ KS hl hK lr hL hR]
+    exact ih (specPass (sm σ) KS lr) hb.1 hb.2
 
 theorem des_unfold (m : Nat) (ks : List Nat) (block : Nat) :
     Spec.des m ks block =
@@ -49,34 +56,35 @@ theorem des_unfold (m : Nat) (ks : List Nat) (block : Nat) :
             4294967296 +
           (Spec.rounds m ks (Spec.permF Spec.IP 64 block / 4294967296, Spec.permF Spec.IP 64 block % 4294967296)).1) := by
   unfold Spec.des
-  generalize Spec.permF Spec.IP 64 block = ip
-  cases Spec.rounds m ks (ip / 4294967296, ip % 4294967296)
-  simp only []
+  dsimp only
 
 /-- one textbook DES encryption of the block whose IP-image is `L‖R`. -/
-theorem des_spec (m : Nat) (KS : List Nat) (L R : Nat) (hL : L < 2 ^ 32) (hR : R < 2 ^ 32) :
-    Spec.des m KS (Spec.permF Spec.FP 64 (L * 4294967296 + R)) =
-      Spec.permF Spec.FP 64 ((specPass m KS (L, R)).1 * 4294967296 + (specPass m KS (L, R)).2) := by
+theorem des_spec (m : Nat) (KS : List Nat) (lr : Nat × Nat) (hL : lr.1 < 2 ^ 32) (hR : lr.2 < 2 ^ 32) :
+    Spec.des m KS (Spec.permF Spec.FP 64 (lr.1 * 4294967296 + lr.2)) =
+      Spec.permF Spec.FP 64 ((specPass m KS lr).1 * 4294967296 + (specPass m KS lr).2) := by
+  obtain ⟨L, R⟩ := lr
+  have hL : L < 2 ^ 32 := hL
+  have hR : R < 2 ^ 32 := hR
   have hX : L * 4294967296 + R < 2 ^ 64 := by
     have : L * 4294967296 ≤ (2 ^ 32 - 1) * 4294967296 := Nat.mul_le_mul_right _ (by omega)
     omega
+  show Spec.des m KS (Spec.permF Spec.FP 64 (L * 4294967296 + R)) = _
   rw [des_unfold, ip_fp_cancel _ hX, show (L * 4294967296 + R) / 4294967296 = L by omega,
     show (L * 4294967296 + R) % 4294967296 = R by omega]
   simp only [specPass]
 
-theorem iter_des_spec (m : Nat) (KS : List Nat) : ∀ (n L R : Nat), L < 2 ^ 32 → R < 2 ^ 32 →
-    Spec.iter (Spec.des m KS) n (Spec.permF Spec.FP 64 (L * 4294967296 + R)) =
-      Spec.permF Spec.FP 64 ((Spec.iter (specPass m KS) n (L, R)).1 * 4294967296 +
-        (Spec.iter (specPass m KS) n (L, R)).2) := by
+theorem iter_des_spec (m : Nat) (KS : List Nat) : ∀ (n : Nat) (lr : Nat × Nat), lr.1 < 2 ^ 32 → lr.2 < 2 ^ 32 →
+    Spec.iter (Spec.des m KS) n (Spec.permF Spec.FP 64 (lr.1 * 4294967296 + lr.2)) =
+      Spec.permF Spec.FP 64 ((Spec.iter (specPass m KS) n lr).1 * 4294967296 +
+        (Spec.iter (specPass m KS) n lr).2) := by
   intro n
   induction n with
-  | zero => intro L R _ _; rfl
+  | zero => intro lr _ _; rw [iter_zero, iter_zero]
   | succ n ih =>
-    intro L R hL hR
-    have hb := specPass_lt m KS L R hL hR
-    simp only [Spec.iter]
-    rw [des_spec m KS L R hL hR]
-    exact ih _ _ hb.1 hb.2
+    intro lr hL hR
+    have hb := specPass_lt m KS lr hL hR
+    rw [iter_succ, iter_succ, des_spec m KS lr hL hR]
+    exact ih (specPass m KS lr) hb.1 hb.2
 
 theorem fp_zero : Spec.permF Spec.FP 64 (0 * 4294967296 + 0) = 0 := by decide +kernel
 
@@ -85,9 +93,35 @@ theorem fp_zero : Spec.permF Spec.FP 64 (0 * 4294967296 + 0) = 0 := by decide +k
 theorem body_spec (hσ : σ < 2 ^ 12) (KS : List Nat) (hl : KS.length = 16) (hK : ∀ K ∈ KS, K < 2 ^ 48) :
     outVal (body (ksWords KS) (E0 σ) (E1 σ)) = Spec.iter (Spec.des (sm σ) KS) 25 0 := by
   unfold body
-  have h := passes_spec σ hσ KS hl hK 25 0 0 (by decide) (by decide)
-  rw [rho_zero] at h
-  rw [h.1, finalPerm_eq_FP _ _ h.2.1 h.2.2, ← iter_des_spec (sm σ) KS 25 0 0 (by decide) (by decide), fp_zero]
+  have h := passes_spec σ hσ KS hl hK 25 (0, 0) (by decide) (by decide)
+  simp only [rho_zero] at h
+  have h2 := iter_des_spec (sm σ) KS 25 (0, 0) (by decide) (by decide)
+  simp only [fp_zero] at h2
+  rw [h.1, finalPerm_eq_FP _ _ h.2.1 h.2.2, h2]
+
+theorem finalPerm_lt (A B : Nat) (hA : A < 2 ^ 32) (hB : B < 2 ^ 32) :
+    (finalPerm (rho A, rho B)).1 < 2 ^ 32 ∧ (finalPerm (rho A, rho B)).2 < 2 ^ 32 := by
+  have hX : A * 4294967296 + B < 2 ^ 64 := by
+    have : A * 4294967296 ≤ (2 ^ 32 - 1) * 4294967296 := Nat.mul_le_mul_right _ (by omega)
+    omega
+  have h1 : eval (A * 4294967296 + B) (rhoE hiE) = rho A := by
+    rw [eval_rhoE]; show rho ((A * 4294967296 + B) >>> 32) = _; rw [pack32_hi A B hB]
+  have h2 : eval (A * 4294967296 + B) (rhoE loE) = rho B := by
+    rw [eval_rhoE]; show rho ((A * 4294967296 + B) &&& 0xffffffff) = _; rw [pack32_lo A B hB]
+  have := finalPerm_eval (A * 4294967296 + B) (rhoE hiE) (rhoE loE)
+  rw [h1, h2] at this
+  rw [this]
+  have s1 := le_sub 64 (finalPermE (rhoE hiE) (rhoE loE)).1 (by decide +kernel) _ hX
+  have s2 := le_sub 64 (finalPermE (rhoE hiE) (rhoE loE)).2 (by decide +kernel) _ hX
+  exact ⟨Nat.lt_of_le_of_lt (sub_le s1) (by decide +kernel), Nat.lt_of_le_of_lt (sub_le s2) (by decide +kernel)⟩
+
+theorem body_lt (hσ : σ < 2 ^ 12) (KS : List Nat) (hl : KS.length = 16) (hK : ∀ K ∈ KS, K < 2 ^ 48) :
+    (body (ksWords KS) (E0 σ) (E1 σ)).1 < 2 ^ 32 ∧ (body (ksWords KS) (E0 σ) (E1 σ)).2 < 2 ^ 32 := by
+  unfold body
+  have h := passes_spec σ hσ KS hl hK 25 (0, 0) (by decide) (by decide)
+  simp only [rho_zero] at h
+  rw [h.1]
+  exact finalPerm_lt _ _ h.2.1 h.2.2
 
 end
 end PttVerif.C02.Lin
